@@ -46,6 +46,7 @@ def run(ctx):
                 sc["procs"].setdefault(args[0], []).append({"SeekFirst": ["itfirst"], "Seek": ["itseek", int(args[1]) if len(args) > 1 else 0], "ItNext": ["itnext"]}[m.group(1)])
         if sc["procs"]:
             scripts.append(sc)
+    vlib.require_ops(ctx, scripts, "Skiplist.tla simulated behaviours with an iterator process")
     ctx.add_sample({"kind": "TLC-simulated behaviour with an iterator process as gate schedule (M3)", "procs": scripts[0]["procs"], "sched": scripts[0]["sched"][:40]})
     tr, info = slc.run_scripts(ctx, scripts, "m3iter")
     if info.get("failed"):
